@@ -232,4 +232,25 @@ example : ∃ x, ReachF true false x ∧ x.s.processed = [] ∧ x.s.history.leng
   have r6 := ReachF.step r5 (.releaseF _ 0 (by simp [set]) (by simp))
   exact ⟨_, r6, by simp [set, init]⟩
 
+/-- **The failure path strands an event** (why C06 excludes it, and what the round-7 / round-8 agents of C04 and C06
+observed on the real engine): sender 0's callback fails and its `except` clause clears the queue; before its `finally`
+releases the lock, sender 1 puts an event and fails to acquire; sender 0 releases without the re-check. Both senders
+have returned, the lock is free — and the event is still queued. Holds for the repaired engine (`fixed = true`) and
+both scheduling granularities. -/
+theorem failure_path_strands (atomic : Bool) :
+    ∃ x : SF, ReachF true atomic x ∧ (∀ i, x.s.pc i = .idle) ∧ x.s.lock = false ∧ x.s.queue = [⟨1, 0⟩] := by
+  have r0 : ReachF true atomic ⟨init, fun _ => false⟩ := .init
+  have r1 := r0.step (.base _ _ (.put init 0 0 rfl) (by simp))
+  have r2 := r1.step (.base _ _ (.acqOk _ 0 (by simp [set]) rfl) (by simp))
+  have r3 := r2.step (.base _ _ (.pop _ 0 ⟨0, 0⟩ [] (by simp [set]) (by simp [init])) (by simp))
+  have r4 := r3.step (.fail _ 0 ⟨0, 0⟩ (by simp [set]))
+  have r5 := r4.step (.base _ _ (.put _ 1 0 (by simp [set, init])) (by simp [set]))
+  have r6 := r5.step (.base _ _ (.acqFail _ 1 (by simp [set]) rfl) (by simp [set]))
+  have r7 := r6.step (.releaseF _ 0 (by simp [set]) (by simp))
+  refine ⟨_, r7, ?_, rfl, ?_⟩
+  · intro i
+    simp only [set, init]
+    split <;> simp_all
+  · simp
+
 end SMV.Protocol
